@@ -247,10 +247,15 @@ def normalise(funcs: dict[str, ast.AST], ref: dict[str, list[list[object]]], tre
             if name is not None and name != refname:
                 mapping[name] = str(refname)
         # keep it injective and do not capture an existing, unrelated name
-        targets = list(mapping.values())
-        for old, new in list(mapping.items()):
-            if targets.count(new) > 1 or (new in cur_names and new not in mapping):
-                del mapping[old]
+        # (to a fixpoint: dropping one renaming can leave its source name in place, which another renaming must then not capture)
+        changed = True
+        while changed:
+            changed = False
+            targets = list(mapping.values())
+            for old, new in list(mapping.items()):
+                if targets.count(new) > 1 or (new in cur_names and new not in mapping):
+                    del mapping[old]
+                    changed = True
         if mapping:
             mapping_for[id(node)] = mapping
             renamed += len(mapping)
